@@ -2,6 +2,7 @@
 import os, sys, json, random
 from vlib import *
 import transport_lib as T
+import transport_env_lib as E
 sys.path.insert(0, os.path.join(ROOT, 'translator'))
 import async_transport
 
@@ -70,6 +71,36 @@ def run_check(tier, seed):
                 broken.append({'kind': 'correspondence', 'name': 'Model/Transport.v vrun (results, memory, dirty pages) vs Reader/VirtioFsWriter', 'case': txt[i][:1500]})
                 nb += 1
                 if nb >= 5: break
+    # ---- round 6 (seed C17f): transfers that fail / run dry partway (the bitmap against the byte diff after the FAILED operation),
+    #      and chains as the driver's tables describe them (INDIRECT tables, many descriptors, queue sizes, 3+ regions, beyond 2^32 bytes)
+    if not err:
+        xrng = random.Random(seed * 104729 + 6)
+        fcases = E.gen_fail_cases(xrng, scale); shcases = E.gen_shape_vcases(xrng)
+        ftxt = [T.case_text_v(c) for c in fcases]; shtxt = [E.case_text_vq(c) for c in shcases]
+        outs2, err2 = T.run_harness(bindir, 'virtio', ftxt + shtxt, 'c17x')
+        if err2: broken.append({'kind': 'harness-run', 'log': err2})
+        else:
+            exprs = []; spec_bad = set(); alltxt = ftxt + shtxt
+            for i, (c, o) in enumerate(zip(fcases + shcases, outs2)):
+                isf = i < len(fcases)
+                p04, p17, shape = T.eval_vcase(c, o) if isf else E.eval_vqcase(c, o)
+                evals += 1 + len(c['ops'])
+                for p in p17:
+                    p['input'] = alltxt[i][:6000]; p['observed_dirty'] = o.get('dirty'); findings.append(p); spec_bad.add(i)
+                if p04: spec_bad.add(i)
+                if shape and not p17 and not p04: shapes.add((c.get('pattern'), c.get('dirty_mode'), len(o.get('dirty', []))))
+                if o.get('harness_panic'): exprs.append('false')
+                else: exprs.append(E.failcase_coq(c, o, True) if isf else E.vqcase_coq(c, o, True))
+            ev.cov['failing_transfer_cases'] = len(fcases); ev.cov['chain_shape_cases'] = len(shcases)
+            if audit['ok']:
+                fails, errs = coq_check_cases('c17_x', E.COQ_HEADER_C17, exprs, shard=max(8, (len(exprs) + 15) // 16))
+                for e in errs: broken.append({'kind': 'correspondence', 'name': 'coq evaluation failed', 'log': e['log'][-800:]})
+                nb = 0
+                for i in fails:
+                    if i in spec_bad: continue
+                    broken.append({'kind': 'correspondence', 'name': 'Model/TransportEnv.v srun / from_vq (results, memory, dirty pages) vs Reader/VirtioFsWriter', 'case': alltxt[i][:1500]})
+                    nb += 1
+                    if nb >= 5: break
     # ---- whole requests through Server::handle_message (read, readdir, getxattr, listxattr, readlink, getattr, unknown opcode)
     scases = [T.gen_scase(rng) for _ in range(200 * scale)]
     stxt = [T.case_text_s(c) for c in scases]
